@@ -14,6 +14,11 @@ func (*Pool).Get
   requires p != nil
   ensures v != nil
 
+func NewPool
+  trusted
+  requires newFunc != nil
+  ensures p != nil && fresh(p)
+
 func (*Pool).Put
   trusted
   logged
